@@ -87,7 +87,13 @@ def run_case(case):
                 # twice or skipped is an error of order (mass ratio) dt^2 ~ 1e-7 or more.
                 K = 1e5 if corrected else 2048
                 # the correctors' rounding does not grow with n in unsafe mode (applied once at each end) but is not small: n + 20
-                if gt(d, K * EPS * (n + (20 if corrected else 2)) * sc):
+                if gt(d, K * EPS * (n + (20 if corrected else 2)) * sc) and integ == 'whfast' and spec['opts'].get('ri_whfast.corrector2') and not gt(d, 3e-10 * n * sc):
+                    # known finding: the inverse of the SECOND corrector is U(-a,-b) U(a,-b), which is not the exact inverse of U(a,b) U(-a,b) (it
+                    # agrees to the order of the corrector); safe mode applies corrector and "inverse" around every step and drifts away from unsafe
+                    # mode by up to 5e-11 of the scale per step (measured; heavy planet, coarse step).  Anything larger than 3e-10 n scale - a
+                    # corrector applied twice or skipped moves a heavy planet by ~1e-6 - is not covered by that key.
+                    add('sync:safe-vs-unsafe-differ:whfast:second-corrector-approximate-inverse', '%s opts %r n=%d: max|diff|=%.3e (scale %.3e, %.3e of the scale per step)' % (integ, spec['opts'], n, d, sc, d / (n * sc)))
+                elif gt(d, K * EPS * (n + (20 if corrected else 2)) * sc):
                     add('sync:safe-vs-unsafe-differ:%s%s' % (integ, ':then-short-exact-integrate' if short else ''), '%s opts %r n=%d: max|diff|=%.3e (scale %.3e, %.1f eps n scale)' % (integ, spec['opts'], n, d, sc, d / (EPS * n * sc)))
             else:
                 counters['eos_pairs'] += 1
